@@ -25,7 +25,8 @@ def enc_start(event):
 
 @spec
 def enc_end(event):
-    return event.timestamp.timestamp() * 1000000 + (event.duration.total_seconds() * 1000000)
+    """The float the code stores as endtime: the end instant, encoded like the start."""
+    return (event.timestamp + event.duration).timestamp() * 1000000
 
 
 @spec
@@ -491,15 +492,17 @@ contract(
     "contracts.sqlite.store_roundtrip",
     params={"storage": "SqliteStorage", "bucket_id": "str", "event": "Event"}, returns="Optional[Event]",
     requires=["lazy_inv(storage)", "bucket_exists(storage, bucket_id)",
-              # the property's domain: instants from 1970 to 2100 (Event keeps instants at whole milliseconds)
-              "EPOCH <= event.timestamp and event.timestamp <= EPOCH + timedelta(days=47482)"],
+              # the property's domain: instants from 1970 to 2100, durations from 0 to about 30 days
+              "EPOCH <= event.timestamp and event.timestamp <= EPOCH + timedelta(days=47482)",
+              "timedelta(0) <= event.duration and event.duration <= timedelta(days=31)"],
     ensures=[
         "result is not None and result is not event and fresh(result) and fresh(result.data)",
         "result.id == event.id and event.id == old(ev_max(storage)) + 1",
         # the same instant (lemma F3: the float encoding of instants is lossless) and equal data (A-JSON)
         "result.timestamp == old(event.timestamp)",
         "result.data == old(event.data)",
-        # (the duration comes back as the difference of two decoded floats: NOT proved here, covered by the bounded check)
+        # the same duration, to the microsecond: both ends are encoded from their exact instants (lemma F3 twice)
+        "result.duration == old(event.duration)",
     ],
     modifies=["storage.last_commit", "storage.num_uncommitted_statements", "storage.conn.*", "alloc", "event.id"],
     writes_fresh=CUR_FRESH + EV_FRESH, raises=["IntegrityError"],
